@@ -16,6 +16,13 @@ CHECKS = {
             "enumerated completely within its bounds, data values are not.",
             "Keys/plaintext bytes from seed-derived alphabets; lengths beyond 3*cs+1 by the periodicity argument in DESIGN.md; REF (OpenSSL) is used as a cross-check reader.",
             "DESIGN.md §6 C01"),
+    "C02": ("exploration", "E-ENV",
+            "stateless exhaustive exploration of Read/Write answer tapes on the chunk loops with the password-mode AAD; exhaustive password-pair grid through the public API and the CLI",
+            "Tiny scope as C01 with AAD = magic (every read partition, bounded write partitions, both loops) plus mismatched key/AAD combinations (must reject and release nothing); "
+            "all ordered pairs of a 12-word byte-string password alphabet x salts through pass_encrypt/pass_decrypt (same => exact round trip, different => Err and zero bytes released); "
+            "lengths x bounded short-I/O schedules through the public API; all ordered pairs of a 12-word UTF-8 alphabet through `kestrel password encrypt|decrypt --env-pass`.",
+            "Password/plaintext values from fixed alphabets; the four HMAC-equivalent password pairs are a recorded known finding (KNOWN_FINDINGS.txt).",
+            "DESIGN.md §6 C02"),
     "C03": ("model_checking", "E-GRAPH",
             "explicit-state breadth-first search (stateright) over ciphertext edits with the real decryptor run in every state, plus deviation-bounded words of REF-minted records",
             "States are byte strings reachable from REF-written authentic files (key mode, password mode, hooked loop) by <=2 (quick) / <=3 (thorough) "
@@ -33,6 +40,14 @@ CHECKS = {
             "Additionally every fault at every call index (plus bounded short reads/writes) while decrypting 12 authentic/tampered inputs per corpus, same predicate on the offered buffers.",
             "Final-chunk-before-trailing-data order deliberately unconstrained; corpus written by REF; AEAD unforgeability assumed.",
             "DESIGN.md §6 C04"),
+    "C05": ("exploration", "E-GRID",
+            "exhaustive enumeration of key-role assignments (real encryptor and an independent REF forger), field mixes and special X25519 encodings",
+            "All 4^4 (private key used, public key claimed, recipient addressed, decrypting key) tuples through the real key_encrypt/key_decrypt; the same tuples through a REF forger "
+            "with 9 forging degrees (claimed != used, ss skipped/zero/from e, recipient hashed != used, es/ss to another recipient, ephemeral mismatch); all 2^4 mixes of "
+            "(e, enc_s, enc_payload, chunks) from pairs of authentic files; all 52 small-order and non-canonical u-coordinates as recipient of key_encrypt (refused with zero bytes written, "
+            "or byte-identical to RFC arithmetic) and as ephemeral key of authentic/forged files (incl. a forger that assumes an all-zero es secret).",
+            "DH hardness assumed; 4-key seed-derived alphabet.",
+            "DESIGN.md §6 C05"),
     "C06": ("exploration", "E-GRID",
             "exhaustive enumeration of (length x read partition x key set) and (length x chunking) products against the executable specification REF, byte for byte",
             "Encrypt side: every read partition of every L<=10 (key mode, public API, injected ephemeral/payload key), boundary lengths, password mode, and every "
@@ -48,6 +63,20 @@ CHECKS = {
             "which is actually executed. Supplemented by real I/O failures through the CLI (/dev/full, closed pipe, missing directory, directory as input).",
             "At most one hard fault per execution; data values from seed-derived alphabets; CLI cases use the real CSPRNG so only verdicts (not bytes) are compared.",
             "DESIGN.md §6 C10"),
+    "C15": ("exploration", "E-GRID",
+            "exhaustive enumeration of (key x password x salt), password pairs, all 672 single-bit changes and string shapes against the REF implementation of the documented locked-key format",
+            "lock_private_key/unlock_private_key compiled from the working tree: Rust lock == REF lock byte for byte; round trip both ways between Rust and REF (incl. non-clamped keys); "
+            "all ordered password pairs reject; every single-bit change of the 84-byte blob rejects; every string length 0..130 and every single-character substitution from a class alphabet "
+            "is rejected or agrees with REF, without panic.",
+            "One scrypt per point bounds the grid; HMAC-equivalent password pairs are a recorded known finding.",
+            "DESIGN.md §6 C15"),
+    "C18": ("exploration", "E-GRID",
+            "exhaustive enumeration of the scrypt parameter grid and axes against OpenSSL, through the library and through the exported C function with guard bytes",
+            "Full product N in 2..2^9/2^10 x r 1..8 x p 1..4 x 8 output lengths, every axis swept alone (N to 2^15, r to 16, p to 8, dkLen 1..200), corner tuples, a 12x12 password/salt length grid "
+            "with trailing-NUL variants; every tuple through kestrel_crypto::scrypt and (all in thorough, the cheap ones plus (2^15,8,1) in quick) through the cdylib's `scrypt` symbol loaded with dlopen, "
+            "output and input buffers surrounded by guard bytes.",
+            "OpenSSL EVP_PBE_scrypt is the RFC 7914 reference; byte values from seed-derived alphabets; N <= 2^15.",
+            "DESIGN.md §6 C18"),
     "C19": ("exploration", "E-GRID",
             "exhaustive enumeration of input-shape grids against an OpenSSL reference model",
             "Every point of the stated length/shape grids (AEAD 0..130 x 0..40, every single-bit alteration, all short inputs, "
